@@ -137,6 +137,16 @@ func main() {
 	replayKnownWitnessCacheUnderflow(r)
 	observePathbadgerReuseAfterFailedCommit(r)
 	evid.Parallel(nHist, 0, func(h int) { rn.runHistory(h) })
+	// Evicting-leader cases (evict.go): both backends per case index.
+	nEvict := r.Pick(200, 6000)
+	evid.Parallel(nEvict, 0, func(i int) {
+		st := stats{}
+		for _, b := range backends {
+			rn.evictingCase(i, b, st)
+			r.Eval(1)
+		}
+		rn.merge(st)
+	})
 	rn.finish(r.Pick(30, 300))
 }
 
